@@ -10,4 +10,4 @@ package subject
 //@   props C11
 //@   logged shash
 //@   nomaprange Write
-//@   ensures hw.n == old(hw.n) + 1
+//@   ensures hw.n == old(hw.n) + 1 && shanew.n == old(shanew.n) + 1 && hw.arg0[old(hw.n)] == shanew.ret0[old(shanew.n)]
